@@ -468,6 +468,31 @@ def f0():
 """ % s}, ["g", "run", "sm"]
 
 
+def T_calls_in_arguments(s):
+    """calls made inside the argument expressions of a keep / of a call (evaluated before the call itself)"""
+    return {"main": HEAD + """
+def h():
+    return term('h#%(h)d')
+
+def h2(a):
+    return term('h2#%(h2)d', a)
+
+def g(x, y=0):
+    return term('g#%(g)d', x, y)
+
+def f1():
+    a = dds.keep('/x/a', g, h())
+    b = dds.keep('/x/b', g, 1, y=h2(2))
+    c = g(h())
+    d = dds.keep('/x/d', g, [h2(i) for i in (1, 2)])
+    e = dds.keep('/x/e', g, h2(h()))
+    return term('f1', a, b, c, d, e)
+
+def f0():
+    return dds.keep('/x/p', f1)
+""" % s}, ["h", "h2", "g"]
+
+
 # explicit refusals of dds (DDSException with one of these codes): the construct is outside the supported subset
 REFUSALS = ("TYPE_NOT_SUPPORTED", "CONSTRUCT_NOT_SUPPORTED", "UNSUPPORTED_CALLABLE_TYPE", "AUTHORIZED_TYPE_NOT_UNDERSTOOD")
 
@@ -476,7 +501,7 @@ TEMPLATES = [T_class_fresh, T_class_object_first, T_inheritance, T_staticmethod,
              T_class_attribute_from_variable, T_init_calls_function, T_from_import_variable, T_class_in_submodule,
              T_generator_and_conditional_expression, T_function_as_default_argument, T_reexport_and_relative_imports,
              T_object_attribute_holds_object, T_variables_of_library_types, T_argument_expressions,
-             T_references_through_attributes]
+             T_references_through_attributes, T_calls_in_arguments]
 # T_module_level_lambda is not in the list: a lambda bound to a module variable is refused with an uncoded DDSException
 # ('Could not find call node'): outside the supported subset (the test-suite marks lambdas under dds.eval as not implemented)
 
